@@ -303,17 +303,39 @@ def check_schema_property(ctx, dialect, real_json, explicit, inp, where):
             ctx.violation('%s: a derived (not user-given) name is longer than max_name_len=%d' % (where, m), {'dialect': dialect, 'input': inp, 'name': pr[1], 'len': len(pr[1])},
                           observed=len(pr[1]), expected='<= %d' % m, key='derived-name-too-long:' + classify_long(pr[1], pr[2]))
         else:
-            ctx.violation('%s: accepted schema has %s' % (where, kind), {'dialect': dialect, 'input': inp, 'detail': pr[1:]}, key='accepted-' + kind)
+            ctx.violation('%s: accepted schema has %s' % (where, kind), {'dialect': dialect, 'input': inp, 'detail': pr[1:]}, key='accepted-' + kind + (':registry' if where.startswith('dbschema') else ':mapping'))
 
 def classify_long(nm, kind):
     if kind == 'table' and re.search(r'_\d+$', nm): return 'm2m-table-suffix'
     if kind == 'column' and nm.endswith('_2'): return 'column-suffix-_2'
     return kind
 
+def directed_ops(dialect):
+    p = provider(dialect)
+    ix = p.get_default_index_name('t', ['a'])
+    uq = p.get_default_index_name('t', ['a', 'b'], is_unique=True)
+    fk = p.get_default_fk_name('t', 'u', ['a'])
+    base = [{'k': 'table', 'name': 't'}, {'k': 'column', 'table': 't', 'name': 'a'}, {'k': 'column', 'table': 't', 'name': 'b'},
+            {'k': 'table', 'name': 'u'}, {'k': 'column', 'table': 'u', 'name': 'id', 'notNull': True}]
+    out = []
+    for nm, mk in ((ix, {'k': 'index', 'table': 't', 'name': None, 'cols': ['a']}),
+                   (uq, {'k': 'index', 'table': 't', 'name': None, 'cols': ['a', 'b'], 'unique': True}),
+                   ('my_ix', {'k': 'index', 'table': 't', 'name': 'my_ix', 'cols': ['a']}),
+                   (fk, {'k': 'fk', 'table': 't', 'name': None, 'cols': ['a'], 'parent': 'u', 'parentCols': ['id'], 'index': False}),
+                   ('my_fk', {'k': 'fk', 'table': 't', 'name': 'my_fk', 'cols': ['a'], 'parent': 'u', 'parentCols': ['id'], 'index': False}),
+                   (ix, {'k': 'fk', 'table': 't', 'name': None, 'cols': ['a'], 'parent': 'u', 'parentCols': ['id'], 'index': None})):
+        for tk in ('table', 'm2mtable'):
+            out.append(base + [mk, {'k': tk, 'name': nm}])             # constraint first, table of the same name later
+            out.append(base + [{'k': tk, 'name': nm}, mk])             # table first
+    out.append(base + [{'k': 'index', 'table': 't', 'name': 'same', 'cols': ['a']}, {'k': 'fk', 'table': 't', 'name': 'same', 'cols': ['b'], 'parent': 'u', 'parentCols': ['id'], 'index': False}])
+    out.append(base + [{'k': 'fk', 'table': 't', 'name': 'same', 'cols': ['b'], 'parent': 'u', 'parentCols': ['id'], 'index': False}, {'k': 'index', 'table': 't', 'name': 'same', 'cols': ['a']}])
+    out.append(base + [{'k': 'fk', 'table': 't', 'name': 'same', 'cols': ['b'], 'parent': 'u', 'parentCols': ['id'], 'index': 'same'}])
+    return out
+
 def ops_tie(ctx):
     rng = ctx.rng
     n = ctx.scale(500, 6000)
-    batch = []
+    batch = [(dialect, ops) for dialect in DIALECTS for ops in directed_ops(dialect)]
     for i in range(n):
         dialect = DIALECTS[i % 4]
         batch.append((dialect, gen_ops(rng, dialect)))
@@ -638,17 +660,23 @@ def catalog(con, tables):
     return cat
 
 def ci_collisions(schema_json):
-    """case-insensitive collisions (SQLite compares identifiers case-insensitively)"""
+    """names that differ ONLY in letter case (SQLite compares identifiers case-insensitively); exact duplicates are not
+    case collisions and are never attributed to the known case-insensitivity findings"""
+    def only_case(names):
+        groups = {}
+        for n in names: groups.setdefault(n.lower(), []).append(n)
+        if any(len(g) != len(set(g)) for g in groups.values()): return None      # an exact duplicate: something else is wrong
+        return any(len(set(g)) > 1 for g in groups.values())
     out = []
     objs = [t['name'] for t in schema_json['tables']]
     for t in schema_json['tables']:
-        cn = [c['name'].lower() for c in t['columns']]
-        if len(set(cn)) != len(cn): out.append('column')
+        r = only_case([c['name'] for c in t['columns']])
+        if r is None: return []
+        if r: out.append('column')
         objs += [i['name'] for i in t['indexes'] if i['name'] is not None and not i['isPk'] and not i['unique']]
-    lo = [o.lower() for o in objs]
-    if len(set(lo)) != len(lo):
-        tl = [t['name'].lower() for t in schema_json['tables']]
-        out.append('table' if len(set(tl)) != len(tl) else 'index')
+    r = only_case(objs)
+    if r is None: return []
+    if r: out.append('table' if only_case([t['name'] for t in schema_json['tables']]) else 'index')
     return out
 
 class _Skip(Exception): pass
@@ -905,6 +933,29 @@ FIXED = [
     ('one-to-one-required-and-self',
      "class Alpha(db.Entity):\n    beta = Required('Beta')\n    prev = Optional('Alpha', reverse='next')\n    next = Optional('Alpha', reverse='prev')\n"
      "class Beta(db.Entity):\n    alpha = Optional(Alpha)\n"),
+    # a table whose name equals the (derived or explicit) name of an index registered earlier, and the other orders
+    ('table-named-like-earlier-composite-index',
+     "class Reading(db.Entity):\n    sensor = Required(int)\n    ts = Required(int)\n    composite_index(sensor, ts)\n"
+     "class Archive(db.Entity):\n    _table_ = 'idx_reading__sensor_ts'\n    payload = Required(str)\n"),
+    ('table-named-like-earlier-composite-key',
+     "class Reading(db.Entity):\n    sensor = Required(int)\n    ts = Required(int)\n    composite_key(sensor, ts)\n"
+     "class Archive(db.Entity):\n    _table_ = 'unq_reading__sensor_ts'\n    payload = Required(str)\n"),
+    ('default-table-named-like-earlier-explicit-unique-index',
+     "class Reading(db.Entity):\n    sensor = Required(int, unique=True, index='Archive')\nclass Archive(db.Entity):\n    payload = Required(str)\n"),
+    ('m2m-table-named-like-earlier-composite-index',
+     "class Areading(db.Entity):\n    sensor = Required(int)\n    ts = Required(int)\n    composite_index(sensor, ts)\n"
+     "class Box(db.Entity):\n    items = Set('Item', table='idx_areading__sensor_ts')\nclass Item(db.Entity):\n    boxes = Set(Box)\n"),
+    ('default-m2m-table-named-like-earlier-explicit-unique-index',
+     "class Areading(db.Entity):\n    sensor = Required(int, unique=True, index='Box_Item')\nclass Box(db.Entity):\n    items = Set('Item')\nclass Item(db.Entity):\n    boxes = Set(Box)\n"),
+    ('composite-index-named-like-earlier-table',
+     "class Archive(db.Entity):\n    _table_ = 'idx_reading__sensor_ts'\n    payload = Required(str)\n"
+     "class Reading(db.Entity):\n    sensor = Required(int)\n    ts = Required(int)\n    composite_index(sensor, ts)\n"),
+    ('attribute-index-named-like-later-table',
+     "class Reading(db.Entity):\n    sensor = Required(int, index='Archive')\nclass Archive(db.Entity):\n    payload = Required(str)\n"),
+    ('foreign-key-named-like-table',
+     "class Owner(db.Entity):\n    pets = Set('Pet')\nclass Pet(db.Entity):\n    owner = Required(Owner)\nclass Other(db.Entity):\n    _table_ = 'fk_pet__owner'\n    x = Required(int)\n"),
+    ('foreign-key-explicit-name-like-index-and-table',
+     "class Owner(db.Entity):\n    tag = Required(int, index='shared_name')\n    pets = Set('Pet')\nclass Pet(db.Entity):\n    owner = Required(Owner, fk_name='shared_name')\n"),
     ('symmetric-m2m-table-collides-with-other-link-table',
      "class Node(db.Entity):\n    peers = Set('Node', reverse='peers', table='Edges')\n    inc = Set('Node', reverse='out')\n    out = Set('Node', reverse='inc', table='Edges')\n"),
 ]
@@ -996,6 +1047,7 @@ def diagrams(ctx):
                             if s == 'norm' and len(nm) > MAXLEN[dialect]:
                                 ctx.divergence('model tags an over-long name as normalised', [dialect, src, nm])
         if 'ok' in out:
+            if dialect == 'sqlite': check_schema_property(ctx, dialect, out['ok'], explicit_names(res['decls']), {'source': src}, 'generate_mapping')
             if res['linked']: declared_tables_oracle(ctx, dialect, src, res)
             one_to_one_oracle(ctx, dialect, src, res)
             if dialect == 'sqlite': sqlite_oracle(ctx, spec, src, res, model_ok)
